@@ -1866,3 +1866,14 @@ V("c19-sample-ndim-guard-inverted", "C19", "fire", SE, "                elif sam
 # ------------------------------------------------------------------------------- round 13 inspired (C16: the integer buffer spelled np.zeros(G.shape, dtype=int))
 V("c16-induced-int-buffer-shape", "C16", "fire", UT, "    subgraph = np.zeros_like(G)\n", "    subgraph = np.zeros(G.shape, dtype=int)\n", rule="DTYPE.narrow-target", what="real weights truncated in the induced subgraph")
 V("c16-induced-float-buffer-shape", "C16", "undecided", UT, "    subgraph = np.zeros_like(G)\n", "    subgraph = np.zeros(G.shape, dtype=G.dtype)\n", what="same dtype as the input: correct")
+
+# ------------------------------------------------------------------------------- refactoring round 8: three false alarms in C08's rules on correct edits of label_edges / dag_to_cpdag
+for _pid in ("C08", "C07", "C10"):
+    V("%s-silent-label-constants-unpacked" % _pid.lower(), _pid, "silent", UT, "    COM, REV, UNK = 1, -1, -2\n", "    COM, REV, UNK = _COMPELLED, _REVERSIBLE, _UNKNOWN\n",
+      more=[(UT, "def label_edges(ordered):", "_COMPELLED, _REVERSIBLE, _UNKNOWN = 1, -1, -2\n\n\ndef label_edges(ordered):")], what="label constants named at module level by one tuple assignment")
+    V("%s-silent-reversible-vectorised" % _pid.lower(), _pid, "silent", UT, "    for (x, y) in zip(fros, tos):\n        cpdag[x, y], cpdag[y, x] = 1, 1\n", "    cpdag[fros, tos] = 1\n    cpdag[tos, fros] = 1\n", what="reversible edges set in both directions by two index stores")
+    V("%s-silent-select-where" % _pid.lower(), _pid, "silent", UT, "        unknown_edges = (ordered * (labelled == UNK).astype(int)).astype(float)\n        unknown_edges[unknown_edges == 0] = -np.inf\n",
+      "        unknown_edges = np.where(labelled == UNK, ordered, 0)\n", what="the largest order number among the unknown edges without the float / -inf round trip")
+V("c08-reversible-one-direction-vectorised", "C08", "fire", UT, "    for (x, y) in zip(fros, tos):\n        cpdag[x, y], cpdag[y, x] = 1, 1\n", "    cpdag[fros, tos] = 1\n    cpdag[fros, tos] = 1\n", rule="LABELS.assembly", what="the same direction written twice")
+V("c08-select-where-known", "C08", "fire", UT, "        unknown_edges = (ordered * (labelled == UNK).astype(int)).astype(float)\n        unknown_edges[unknown_edges == 0] = -np.inf\n",
+  "        unknown_edges = np.where(labelled != UNK, ordered, 0)\n", rule="STEP.select", what="selects among the already labelled edges")
